@@ -95,7 +95,7 @@ Proof. exact lower_times. Qed.
    right-hand sides, ternary assignments, declarations (one variable with a jump-free or ternary initialiser, or several
    variables with jump-free initialisers),
    scope ends, empty statements, conditional / counting / unconditional jumps, labels, interrupts, instruction
-   calls with jump-free arguments (complex arguments go through temporaries that are live across the call and freed after it);
+   calls with jump-free or ternary arguments (complex arguments go through temporaries that are live across the call and freed after it);
    statements disabled on the VM's difficulty are waited for and skipped),
    every table of intrinsics, every initial state and any number of loop iterations [fs]:
    if the source run, in strict mode, ends in a state, the lowered stream ends in EXACTLY that state -- same
@@ -122,20 +122,20 @@ Proof. exact body_correct_gen. Qed.
 
 (* non-vacuity of Stage C: a loop through a backward counting jump (3 iterations), a compound assignment
    through a temporary, a ternary, `unless (a || b) goto L @ t`, a declaration with a ternary initialiser, a call
-   disabled on the VM's difficulty, a scope end, calls with two complex arguments: the premises hold, the strict source
+   disabled on the VM's difficulty, a scope end, calls with complex and ternary arguments: the premises hold, the strict source
    run ends (time 40, real time 60, 5 logged calls) and so does the lowered stream, in the same state *)
 Example C02_body_example :
   let rty := fun _ : Z => TInt in let lty := fun _ : nat => TInt in let libm := fun (_ : unop) (_ : Z) => 0 in
   exists code s' st',
-    lower_body ex_avail true rty lty 20 ex_body (mklst 1 []) = Ok (code, s') /\ length code = 41%nat /\
+    lower_body ex_avail true rty lty 20 ex_body (mklst 1 []) = Ok (code, s') /\ length code = 49%nat /\
     wf_body rty lty 1 ex_body /\ fresh lty (p_mem ex_st0) 1 /\
     sprog gen_optable libm rty lty 0 (Some 0%nat) true 10 ex_body Exec ex_st0 = Ok st' /\
     p_time st' = 40 /\ p_real st' = 60 /\ length (p_log st') = 5%nat /\ regs (p_mem st') 1011 = VInt 27 /\
     wprog gen_optable libm lty (Some 0%nat) 10 code Exec ex_st0 None = Ok st'.
 Proof. exact body_example. Qed.
 
-(* The full property, for reference.  Not yet a theorem: declarations without initialiser, ternaries as call
-   arguments, difficulty switches inside expressions, ternaries nested inside
+(* The full property, for reference.  Not yet a theorem: declarations without initialiser,
+   difficulty switches inside expressions, ternaries nested inside
    arithmetic, and the composition with register allocation
    (Proofs/RegAllocSem.v, regalloc_simulates).  Those parts are covered by the structural correspondence (model lowering =
    implementation lowering) and by the AstVm before/after oracle on every run. *)
